@@ -12,6 +12,7 @@ import TdModel.Prim.SHA1
 import TdModel.Prim.AES
 import TdModel.Prim.SHA512
 import TdModel.Prim.HMAC
+import TdModel.Prim.PBKDF2
 
 namespace TdModel
 
